@@ -802,6 +802,12 @@ class RequestHandler(BaseProtocol, Generic[_Request]):
 
                 payload.set_exception(_PAYLOAD_ACCESS_ERROR)
 
+                # An upgrade request with a body that was answered before its
+                # body was complete: the parser switches to the upgraded state
+                # only now (deferred upgrade). Nobody accepted the upgrade, so
+                # switch back, else later requests are buffered for ever.
+                self._decline_upgrade()
+
             except asyncio.CancelledError:
                 self.log_debug("Ignored premature client disconnection")
                 self.force_close()
@@ -834,18 +840,11 @@ class RequestHandler(BaseProtocol, Generic[_Request]):
             if self.transport is not None:
                 self.transport.close()
 
-    async def finish_response(
-        self, request: BaseRequest, resp: StreamResponse, start_time: float | None
-    ) -> tuple[StreamResponse, bool]:
-        """Prepare the response and write_eof, then log access.
+    def _decline_upgrade(self) -> None:
+        """Switch back to HTTP after an upgrade request that was not accepted.
 
-        This has to
-        be called within the context of any exception so the access logger
-        can get exception information. Returns True if the client disconnects
-        prematurely.
+        Feeds the bytes buffered behind the upgrade request back to the parser.
         """
-        request._finish()
-
         # Handle feeding the message tail following an upgrade request that
         # was declined.
         # The upgrade request is the last request before the parser paused,
@@ -896,6 +895,20 @@ class RequestHandler(BaseProtocol, Generic[_Request]):
                 # This shouldn't be possible. If a future refactor results in this
                 # failing, then the code may need to be updated to set the waiter.
                 assert self._waiter is None
+
+    async def finish_response(
+        self, request: BaseRequest, resp: StreamResponse, start_time: float | None
+    ) -> tuple[StreamResponse, bool]:
+        """Prepare the response and write_eof, then log access.
+
+        This has to
+        be called within the context of any exception so the access logger
+        can get exception information. Returns True if the client disconnects
+        prematurely.
+        """
+        request._finish()
+
+        self._decline_upgrade()
         try:
             prepare_meth = resp.prepare
         except AttributeError:
